@@ -411,6 +411,10 @@ def gen_history(seed, tier, classes=None, weights=None, n_ops=(6, 16),
                       m=r.randint(4, 12), noise=r.choice([0, 0.2, 0.5]),
                       dups=r.random() < 0.4, cp=gen_cp(r, inv),
                       via="indices" if (s.pre and r.random() < 0.5) else "formed"))
+      if not inv and r.random() < 0.25:
+        ops[-1]["in_fit_buffers"] = True
+        if s.pre:
+          ops[-1]["via"] = "indices"
     elif k == "handout":
       what = r.choice(["metric", "M"])
       ops.append(dict(op="handout", h=s.hid, what=what, seed=r.randrange(1000)))
